@@ -37,6 +37,9 @@ META = {
 }
 
 FILL = "text{{ 1 }}"
+# a line that is not constant-folded, put after closing tags so that code
+# generated later (block functions) maps to earlier template lines
+TAIL = "tail{{ t }}"
 
 
 class Boom(Exception):
@@ -125,12 +128,12 @@ def _ctx_parent_top(body, O, C):
 
 
 def _ctx_parent_block(body, O, C):
-    return ({"parent": [FILL, "{% block b " + O + "%}"] + body + ["{%" + C + " endblock %}"],
+    return ({"parent": [FILL, "{% block b " + O + "%}"] + body + ["{%" + C + " endblock %}", TAIL],
              "main": ["{% extends 'parent' %}", FILL]}, "main", "parent", 2)
 
 
 def _ctx_super(body, O, C):
-    return ({"parent": ["{% block b " + O + "%}"] + body + ["{%" + C + " endblock %}"],
+    return ({"parent": ["{% block b " + O + "%}"] + body + ["{%" + C + " endblock %}", TAIL, "{% block c %}{{ t }}{% endblock %}"],
              "main": ["{% extends 'parent' %}", FILL, "{% block b %}", "{{ super() }}", "{% endblock %}"]},
             "main", "parent", 1)
 
@@ -146,7 +149,7 @@ def _ctx_include(body, O, C):
 
 
 def _ctx_include_block(body, O, C):
-    return ({"inc": ["{% block b " + O + "%}"] + body + ["{%" + C + " endblock %}"],
+    return ({"inc": ["{% block b " + O + "%}"] + body + ["{%" + C + " endblock %}", TAIL],
              "main": [FILL, "{% for i in [1] %}{% include 'inc' %}{% endfor %}"]}, "main", "inc", 1)
 
 
@@ -167,7 +170,7 @@ def _ctx_import_top(body, O, C):
 
 CONTEXTS = {
     "top": _ctx_top,
-    "block": _wrap("{% block b {O}%}", "{%{C} endblock %}"),
+    "block": _wrap("{% block b {O}%}", "{%{C} endblock %}", [TAIL]),
     "for": _wrap("{% for i in [1] {O}%}", "{%{C} endfor %}"),
     "macro": _wrap("{% macro m() {O}%}", "{%{C} endmacro %}", ["{{ m() }}"]),
     "child-block": _ctx_child_block,
@@ -195,7 +198,7 @@ CONTEXTS = {
     "from-import": _ctx_from_import,
     "import-top": _ctx_import_top,
     "block-for-if": lambda body, O, C: ({"main": ["{% block b %}", "{% for i in [1] %}", "{% if true " + O + "%}"] + body
-                                         + ["{%" + C + " endif %}", "{% endfor %}", "{% endblock %}"]}, "main", "main", 3),
+                                         + ["{%" + C + " endif %}", "{% endfor %}", "{% endblock %}", TAIL]}, "main", "main", 3),
     "macro-for": lambda body, O, C: ({"main": ["{% macro m() %}{% for i in [1] " + O + "%}"] + body
                                       + ["{%" + C + " endfor %}{% endmacro %}", "{{ m() }}"]}, "main", "main", 1),
 }
